@@ -51,14 +51,17 @@ ASSUMPTIONS = [
     'a join is counted as successful only when it was join(None) or the '
     'child had provably ended before the call',
     'join(t) must return within t + 3 s (observed overrun on this 16-core '
-    'box: <5 ms normally, <50 ms at load 8, up to 0.5 s at load 40-100; a '
-    'failing case must reproduce 3/3)',
+    'box: <5 ms normally, <50 ms at load 8, <0.5 s at load 40, and 11 of '
+    '~1400 joins between 0.5 s and 3 s at load 80; a failing case must '
+    'reproduce 3/3)',
     'quick/thorough parts carry a wall cap per shard (enum 15 s + 30/12/12 s, '
-    'enum 300 s + 420/240/240 s) that only bites on a badly oversubscribed box; a cut '
-    'part is flagged budget_cut',
+    'enum 240 s + 330/165/165 s) that only bites on a badly oversubscribed '
+    'box; a cut part is flagged budget_cut',
     'forkserver / semaphore-tracker helper processes are shut down after '
     'every case by closing forkserver._forkserver._forkserver_alive_fd and '
-    'semaphore_tracker._semaphore_tracker._fd and reaped by the harness',
+    'semaphore_tracker._semaphore_tracker._fd and reaped by the harness; one '
+    'that has not gone 10 s later (seen only at load > 50, while it was '
+    'still starting up) is SIGKILLed and labelled helper_had_to_be_killed',
     'sys.exit() without an integer argument and os._exit are outside the '
     'statement and not generated',
 ]
@@ -684,9 +687,9 @@ def run(ctx):
     # (cases per shard, wall cap per shard in s).  The caps only bite when the
     # box is badly oversubscribed (a fork case costs ~0.2 s on a quiet box and
     # >2 s at load 80); a cut part is reported as budget_cut in the evidence.
-    plan = (('fork', ctx.pick(25, 600), ctx.pick(30, 420)),
-            ('spawn', ctx.pick(3, 200), ctx.pick(12, 240)),
-            ('forkserver', ctx.pick(3, 200), ctx.pick(12, 240)))
+    plan = (('fork', ctx.pick(25, 600), ctx.pick(30, 330)),
+            ('spawn', ctx.pick(3, 200), ctx.pick(12, 165)),
+            ('forkserver', ctx.pick(3, 200), ctx.pick(12, 165)))
     broken = []
 
     def guarded(fn):
@@ -702,11 +705,27 @@ def run(ctx):
                 return inconclusive('harness error')
         return run_one
 
+    def confirmed(fn):
+        # ctx.enumerate has no reexecute_confirm: same 3/3 rule done here
+        def run_one(case):
+            out = fn(case)
+            if out.violated:
+                for _ in range(2):
+                    again = fn(case)
+                    if not again.violated:
+                        return ok(False, tuple(again.labels) +
+                                  ('unconfirmed_failure',))
+            return out
+        return run_one
+
     ctx.enumerate('enum', enum_cases(ctx.tier == 'thorough'),
-                  guarded(PARTS['enum']), time_cap=ctx.pick(15, 300))
+                  confirmed(guarded(PARTS['enum'])),
+                  time_cap=ctx.pick(15, 240))
     if broken:
         raise HarnessError('exception in part enum:\n%s' % broken[0])
     for method, n, cap in plan:
+        if ctx.violations:        # one minimised counterexample is enough
+            return
         ctx.explore(method, cases(method), guarded(PARTS[method]), n=n,
                     shrink_budget=12, reexecute_confirm=2, time_cap=cap)
         if broken:
